@@ -215,6 +215,63 @@ def h5(led, rid, ctx):
     led.floor(rid, "resets in incremental synchronise", n, 2)
 
 
+def h6(led, rid, ctx):
+    """every value a profile height is built from is compared with the capacity on its way into the
+    stored profile: no definition of the running usage reaches the construction of a ResourceProfile
+    without passing a capacity comparison"""
+    lib = ctx.lib
+    n = 0
+    for f in lib.fns.values():
+        if "/cumulative/time_table/" not in f.file or "/tests" in f.file or f.kind == "Closure":
+            continue
+        aggs = aggregates(f, "ResourceProfile")
+        if not aggs:
+            continue
+        cfg = f.cfg
+        comps = {bb for g, bb in capacity_comparisons(f) if g is f}
+        for bb, i, st in aggs:
+            rv = st["rv"]
+            names = rv.get("field_names") or []
+            if "height" not in names:
+                continue
+            op = rv["fields"][names.index("height")]
+            pl = op.get("copy") or op.get("move")
+            if not pl or pl["proj"]:
+                continue
+            L = pl["local"]
+            # follow a plain copy back to the named running variable
+            for _ in range(4):
+                ds = f.whole_defs(L)
+                if len(ds) == 1 and ds[0][0] == "stmt" and ds[0][3]["rv"]["r"] == "use":
+                    p2 = ds[0][3]["rv"]["op"].get("copy") or ds[0][3]["rv"]["op"].get("move")
+                    if p2 and not p2["proj"]:
+                        L = p2["local"]
+                        continue
+                break
+            defs = [d for d in f.whole_defs(L) if d[0] in ("stmt", "call")]
+            nonconst = []
+            for d in defs:
+                if d[0] == "stmt":
+                    rv2 = d[3]["rv"]
+                    if rv2["r"] == "use" and "const" in rv2["op"]:
+                        continue          # the initial 0
+                    nonconst.append(d[1])
+                else:
+                    nonconst.append(d[2].bb)
+            if len(nonconst) < 2:
+                continue                  # not a running value
+            n += 1
+            bad = [d for d in nonconst if d != bb and cfg.reaches(d, [bb], avoid=list(comps), strict=True)
+                   and d not in comps]
+            led.check(not bad, rid, "%s:height-checked-before-stored" % f.name, "%s:%d" % (f.file, f.blocks[bb]["line"]),
+                      "every update of the usage passes a capacity comparison before the profile is built",
+                      "%s builds a profile from a resource usage that was updated (line %s) and reaches the "
+                      "construction of the profile without being compared with the capacity: a profile above "
+                      "the capacity is stored as an ordinary profile, this variant accepts what the others refute"
+                      % (f.name, ", ".join(str(f.blocks[d]["line"]) for d in bad[:3])))
+    led.floor(rid, "profiles built from a running usage", n, 1)
+
+
 def h12(led, rid, ctx):
     """handler ⇔ registration for the cumulative propagators (instance of C01-S5)"""
     from .C01 import s5_propagator_events
@@ -228,3 +285,4 @@ def run(ctx, led):
     run_rule(led, "H5", "pending updates of the incremental propagators are never discarded silently", h5, ctx)
     run_rule(led, "H1/H2", "backtrack handler ⇔ backtrack registration for the cumulative "
              "propagators; the non-incremental path rebuilds (shared with C01-S5)", h12, ctx)
+    run_rule(led, "H6", "no update of the running usage reaches the construction of a profile without a capacity comparison", h6, ctx)
